@@ -32,7 +32,7 @@ PARSEC = 3.08567758e16
 @st.composite
 def _case(draw):
     kind = draw(st.sampled_from(['emission', 'emission', 'directimage']))
-    ngauss = draw(st.integers(1, 8))
+    ngauss = draw(S.ints(1, 8))
     dist = draw(st.floats(1.0, 500.0))
     w = draw(S.world(extras=('CIA', 'Rayleigh')))
     return {'world': w, 'kind': kind, 'ngauss': ngauss, 'dist': dist}
